@@ -164,9 +164,10 @@ def cast_case(ctx, rng, idx, pending):
     n = rng.choice([3, 6, 12])
     bad_at = sorted(rng.sample(range(2, n), rng.choice([0, 1, 1, 2]) if n > 3 else rng.choice([0, 1])))
     strip = rng.random() < 0.7
-    rows = [[str(i), ('n/a' if i in bad_at else '%d.5' % i), rng.choice(['name%d', ' name%d', 'name%d\t', 'na me%d']) % i] for i in range(n)]
+    rows = [[str(i), ('n/a' if i in bad_at else '%d.5' % i), rng.choice(['name%d', ' name%d', 'name%d\t', 'na me%d']) % i,
+             ('oops' if (i in bad_at and i % 2) else str(i * 10))] for i in range(n)]
     path = os.path.join(ctx.scratch, 'cast%d.csv' % idx)
-    write_csv(path, ['id', 'qty', 'name'], rows)
+    write_csv(path, ['id', 'qty', 'name', 'cnt'], rows)
     how = rng.choice(['override_fields', 'sample_size'])
     policy = rng.choice(['raise', 'drop', 'ignore', 'clear'])
     limit = rng.choice([None, 0, 1, 2, 3, 5, 100])
@@ -174,7 +175,7 @@ def cast_case(ctx, rng, idx, pending):
               on_error={'raise': Load.ERRORS_RAISE, 'drop': Load.ERRORS_DROP, 'ignore': Load.ERRORS_IGNORE,
                         'clear': Load.ERRORS_CLEAR}[policy])
     if how == 'override_fields':
-        kw['override_fields'] = {'qty': {'type': 'number'}}
+        kw['override_fields'] = {'qty': {'type': 'number'}, 'cnt': {'type': 'integer'}}
     else:
         kw['sample_size'] = 2
     if limit is not None:
@@ -192,12 +193,16 @@ def cast_case(ctx, rng, idx, pending):
 
     def typed(r, bad):
         q = r[1] if (bad and policy == 'ignore') else (None if bad else decimal.Decimal(r[1]))
-        return {'id': int(r[0]), 'qty': q, 'name': r[2].strip() if strip else r[2]}
+        if r[3] == 'oops':
+            c = 'oops' if policy == 'ignore' else None
+        else:
+            c = int(r[3])
+        return {'id': int(r[0]), 'qty': q, 'name': r[2].strip() if strip else r[2], 'cnt': c}
     # ---- correspondence with the model of the wrapper chain: incoming string rows, cast_value outcomes as a table
     from tableschema import Field
     fobj = {'id': Field({'name': 'id', 'type': 'integer'}), 'qty': Field({'name': 'qty', 'type': 'number'}),
-            'name': Field({'name': 'name', 'type': 'string'})}
-    incoming = [dict(zip(['id', 'qty', 'name'], r)) for r in rows]
+            'name': Field({'name': 'name', 'type': 'string'}), 'cnt': Field({'name': 'cnt', 'type': 'integer'})}
+    incoming = [dict(zip(['id', 'qty', 'name', 'cnt'], r)) for r in rows]
     tab = {}
     for r in incoming:
         for k, v in r.items():
@@ -205,7 +210,7 @@ def cast_case(ctx, rng, idx, pending):
                 tab[(k, v)] = [k, canon.enc_val(v), canon.enc_val(fobj[k].cast_value(v))]
             except Exception:  # noqa
                 tab[(k, v)] = [k, canon.enc_val(v), None]
-    op = {'op': 'validate', 'chain': True, 'res': 'cast%d' % idx, 'fields': ['id', 'qty', 'name'], 'policy': policy,
+    op = {'op': 'validate', 'chain': True, 'res': 'cast%d' % idx, 'fields': ['id', 'qty', 'name', 'cnt'], 'policy': policy,
           'rows': [canon.enc_row(r) for r in incoming], 'cast': list(tab.values()), 'strip': strip, 'ws': WS}
     if limit is not None:
         op['limit'] = limit
